@@ -139,6 +139,13 @@ class Ctx:
         return np.array([[self.real(f"{name}{i}{'xyz'[k]}") for k in range(n)] for i in range(rows)],
                         dtype=object if self.symbolic else float)
 
+    def const(self, v):
+        """A literal of the code (e.g. TOL) as an exact constant: products of constants stay exact
+        in symbolic mode instead of being rounded by Python float arithmetic first."""
+        if self.mode == "symbolic":
+            return SReal(tm.const(v))
+        return v
+
     def choice(self, name, options):
         """A finite choice that is part of the case enumeration in concrete mode only."""
         if self.mode == "symbolic":
@@ -286,67 +293,65 @@ def run_symbolic(p: Proof, case, timeout_s: float, job_timeout_s: float, seed: i
     feas = solve.Feasibility()
     out = {"proof": p.name, "case": case_label(case) if case is not None else None, "obligations": {},
            "paths": 0, "error": None, "seconds": 0.0, "assumed_nonzero": 0, "notes": []}
-    old = signal.signal(signal.SIGALRM, _on_alarm)
-    signal.setitimer(signal.ITIMER_REAL, job_timeout_s)
-    try:
-        def body(pc):
-            c = Ctx("symbolic", case, pathctx=pc)
-            return p.fn(c)
+    from .timer import Timeout, deadline
 
-        paths = sym.explore(body, feas, max_paths=p.max_paths)
-        out["paths"] = len(paths)
-        rng = random.Random(seed)
-        for path in paths:
-            out["assumed_nonzero"] += len(path.nonzero)
-            for n in path.notes:
-                if n not in out["notes"]:
-                    out["notes"].append(n)
-            obls = list(path.obligations)
-            if path.outcome[0] == "raise":
-                e = path.outcome[1]
-                tb = "".join(traceback.format_exception(type(e), e, e.__traceback__)[-3:])
-                obls.append(("no-unexpected-exception", path.pc, tm.FALSE, {"exception": f"{type(e).__name__}: {e}", "tb": tb}))
-            for clause, pc, goal, info in obls:
-                oid = p.oid(clause, case)
-                rec = out["obligations"].setdefault(
-                    oid, {"verdict": "proved", "backends": [], "seconds": 0.0, "vcs": 0, "env": None, "text": "",
-                          "cover": False})
-                rec["vcs"] += 1
-                r = solve.discharge(tuple(pc), goal, timeout_s, poly.identity)
-                rec["seconds"] = round(rec["seconds"] + r["seconds"], 4)
-                if r["backend"] and r["backend"] not in rec["backends"]:
-                    rec["backends"].append(r["backend"])
-                if r["verdict"] == "refuted":
-                    if rec["verdict"] != "refuted":
-                        rec["verdict"] = "refuted"
-                        rec["env"] = r["env"]
-                        rec["text"] = (r["text"] + " " + str(info.get("exception", ""))).strip()
-                        rec["goal"] = tm.show(goal, 5)[:400]
-                elif r["verdict"] == "unknown":
-                    # look for a concrete counterexample before giving up
-                    env = solve.numeric_search(pc, goal, tm.free_vars(list(pc) + [goal]), rng, tries=300,
-                                               scale=p.scale)
-                    if env is not None and rec["verdict"] != "refuted":
-                        rec["verdict"] = "refuted"
-                        rec["env"] = env
-                        rec["text"] = "numeric counter-model of the VC (solver unknown)"
-                        rec["goal"] = tm.show(goal, 5)[:400]
-                    elif rec["verdict"] == "proved":
-                        rec["verdict"] = "unknown"
-                        rec["text"] = r["text"][:300]
-                # cover: the path that reaches this clause is satisfiable
-                if not rec["cover"]:
-                    rec["cover"] = _cover(pc, rng, p.scale)
-        out["feasibility_calls"] = feas.calls
-    except _JobTimeout:
+    try:
+      with deadline(job_timeout_s):
+          def body(pc):
+              c = Ctx("symbolic", case, pathctx=pc)
+              return p.fn(c)
+
+          paths = sym.explore(body, feas, max_paths=p.max_paths)
+          out["paths"] = len(paths)
+          rng = random.Random(seed)
+          for path in paths:
+              out["assumed_nonzero"] += len(path.nonzero)
+              for n in path.notes:
+                  if n not in out["notes"]:
+                      out["notes"].append(n)
+              obls = list(path.obligations)
+              if path.outcome[0] == "raise":
+                  e = path.outcome[1]
+                  tb = "".join(traceback.format_exception(type(e), e, e.__traceback__)[-3:])
+                  obls.append(("no-unexpected-exception", path.pc, tm.FALSE, {"exception": f"{type(e).__name__}: {e}", "tb": tb}))
+              for clause, pc, goal, info in obls:
+                  oid = p.oid(clause, case)
+                  rec = out["obligations"].setdefault(
+                      oid, {"verdict": "proved", "backends": [], "seconds": 0.0, "vcs": 0, "env": None, "text": "",
+                            "cover": False})
+                  rec["vcs"] += 1
+                  r = solve.discharge(tuple(pc), goal, timeout_s, poly.identity)
+                  rec["seconds"] = round(rec["seconds"] + r["seconds"], 4)
+                  if r["backend"] and r["backend"] not in rec["backends"]:
+                      rec["backends"].append(r["backend"])
+                  if r["verdict"] == "refuted":
+                      if rec["verdict"] != "refuted":
+                          rec["verdict"] = "refuted"
+                          rec["env"] = r["env"]
+                          rec["text"] = (r["text"] + " " + str(info.get("exception", ""))).strip()
+                          rec["goal"] = tm.show(goal, 5)[:400]
+                  elif r["verdict"] == "unknown":
+                      # look for a concrete counterexample before giving up
+                      env = solve.numeric_search(pc, goal, tm.free_vars(list(pc) + [goal]), rng, tries=300,
+                                                 scale=p.scale)
+                      if env is not None and rec["verdict"] != "refuted":
+                          rec["verdict"] = "refuted"
+                          rec["env"] = env
+                          rec["text"] = "numeric counter-model of the VC (solver unknown)"
+                          rec["goal"] = tm.show(goal, 5)[:400]
+                      elif rec["verdict"] == "proved":
+                          rec["verdict"] = "unknown"
+                          rec["text"] = r["text"][:300]
+                  # cover: the path that reaches this clause is satisfiable
+                  if not rec["cover"]:
+                      rec["cover"] = _cover(pc, rng, p.scale)
+          out["feasibility_calls"] = feas.calls
+    except Timeout:
         out["error"] = f"undecided: job timeout after {job_timeout_s}s"
     except Unsupported as e:
         out["error"] = f"undecided: unsupported: {e}"
     except sym.EngineError as e:
         out["error"] = f"engine: {e}"
-    finally:
-        signal.setitimer(signal.ITIMER_REAL, 0)
-        signal.signal(signal.SIGALRM, old)
     out["seconds"] = round(time.time() - t0, 3)
     return out
 
